@@ -521,6 +521,7 @@ def constructor(prog: Program, rep: Report, MW: ClassInfo, clause: str = "C01.3"
              "replace) is not prefix removal")
     fi = MW.methods.get("__init__")
     rep.require(fi is not None, "anchor-missing: ModeWrapper.__init__")
+    _for_else_complete(prog, rep, fi, clause)
     fa = fa_of(prog, fi)
     cfg = fa.cfg
     rep.analysed_add("functions", f"{fi.module.relpath}:{fi.qualname}")
@@ -793,3 +794,60 @@ def mode_positions(prog: Program, rep: Report, MW: ClassInfo, clause: str):
                    nontrivial=False)
     if n == 0:
         rep.unk("G9.mode-positions", MW, "helpers", "no mode helper found", clause=clause)
+
+
+def _for_else_complete(prog: Program, rep: Report, fi, clause: str):
+    """'for group in groups: ... break' with an else clause that registers the plain item: a break that is not preceded by the
+    fused registration leaves the item without any entry."""
+    fa = fa_of(prog, fi)
+    cfg = fa.cfg
+
+    def appended(stmts):
+        out = set()
+        for st in stmts:
+            for y in ast.walk(st):
+                if isinstance(y, ast.Call) and isinstance(y.func, ast.Attribute) and y.func.attr == "append":
+                    out.add(" ".join(ast.unparse(y.func.value).split()))
+        return out
+
+    def own_breaks(loop):
+        out = []
+
+        def walk(stmts):
+            for st in stmts:
+                if isinstance(st, ast.Break):
+                    out.append(st)
+                elif isinstance(st, (ast.For, ast.While, ast.FunctionDef, ast.ClassDef)):
+                    continue
+                else:
+                    for fld in ("body", "orelse", "finalbody"):
+                        walk(getattr(st, fld, []) or [])
+                    for h in getattr(st, "handlers", []) or []:
+                        walk(h.body)
+        walk(loop.body)
+        return out
+
+    for loop in [x for x in ast.walk(fi.node) if isinstance(x, ast.For) and x.orelse]:
+        lists = appended(loop.orelse)
+        brs = own_breaks(loop)
+        if not lists or not brs:
+            continue
+        nxt = next((n for n, nd in cfg.nodes.items() if nd.kind == "next" and nd.owner is loop), None)
+        if nxt is None:
+            continue
+        body_entry = cfg.out_edge(nxt, True)
+        bad = []
+        for b in brs:
+            bn = cfg.stmt_node.get(b)
+            if bn is None or body_entry is None:
+                continue
+            for lst in sorted(lists):
+                apps = {n for n, c in fa.calls() if isinstance(c.func, ast.Attribute) and c.func.attr == "append"
+                        and " ".join(ast.unparse(c.func.value).split()) == lst and n in cfg.nodes_inside(loop.body)}
+                if not apps or not cfg.must_pass(apps, src=body_entry, dst=bn):
+                    bad.append((b.lineno, lst))
+        rep.decide(not bad, "G5.fuse-bookkeeping", fi, f"for-else:{' '.join(ast.unparse(loop.iter).split())[:40]}",
+                   "the search loop is left early only after the entry was registered; otherwise its else clause registers the item",
+                   "; ".join(f"the break at line {ln} can be reached without an append to {lst}" for ln, lst in bad[:3]) +
+                   ": the else clause, which registers the plain item, is skipped - the item ends up with no entry (no loader, its "
+                   "position stays None)", line=bad[0][0] if bad else loop.lineno, clause=clause)
